@@ -6,6 +6,7 @@ Tie (validates the translator): every command x every subset of optional argumen
 extreme} x API versions around each threshold is called on the real APIClient over SimNet; the frame written is decoded
 with api_pb2 and compared field by field with exec of the generated IR (extracted) and with an oracle from the property."""
 import itertools
+import asyncio
 import json
 import math
 import random
@@ -325,17 +326,48 @@ def run(rep, tier, seed):
                     for t in T:
                         s = model.UserService(name="svc", key=9, args=[model.UserServiceArg(name="a", type=t)])
                         n0 = len(tr.writes)
-                        cli.execute_service(s, {"a": vals[t]})
-                        out.append((ver, t, vals[t], [d for _, d in tr.writes[n0:]]))
+                        err = None
+                        try:
+                            cli.execute_service(s, {"a": vals[t]})
+                        except Exception as e:  # noqa
+                            err = e
+                        out.append((ver, t, vals[t], [d for _, d in tr.writes[n0:]], err))
                     await cli.disconnect(force=True)
+                # one client object over two sessions that negotiate different API versions (a device that was up- or downgraded):
+                # the same service, called in both
+                for order in (((1, 2), (1, 3)), ((1, 3), (1, 2))):
+                    from aioesphomeapi.client import APIClient
+                    cli2 = APIClient("10.0.0.1", 6053, None)
+                    for ver in order:
+                        await cli2.start_connection()
+                        task = asyncio.ensure_future(cli2.finish_connection(login=False))
+                        await simnet.drain(loop)
+                        tr2 = net.transports[-1]
+                        tr2.feed(simnet.plain_msg(pb.HelloResponse(api_version_major=ver[0], api_version_minor=ver[1], name="dev")))
+                        await simnet.drain(loop)
+                        await task
+                        s = model.UserService(name="svc", key=31, args=[model.UserServiceArg(name="a", type=T.INT)])
+                        n0 = len(tr2.writes)
+                        err = None
+                        try:
+                            cli2.execute_service(s, {"a": 7})
+                        except Exception as e:  # noqa
+                            err = e
+                        out.append((ver, T.INT, 7, [d for _, d in tr2.writes[n0:]], err))
+                        await cli2.disconnect(force=True)
+                        await simnet.drain(loop)
             return out
         return inner()
     T = model.UserServiceArgType
     table = {T.BOOL: "bool_", T.FLOAT: "float_", T.STRING: "string_", T.BOOL_ARRAY: "bool_array", T.INT_ARRAY: "int_array", T.FLOAT_ARRAY: "float_array", T.STRING_ARRAY: "string_array"}
-    for ver, t, val, writes in simnet.run(svc):
+    for n_svc, (ver, t, val, writes, err) in enumerate(simnet.run(svc)):
         frames = simnet.decode_plain_stream(writes[0]) if len(writes) == 1 else []
-        replay = {"kind": "impl-case", "method": "execute_service", "type": t.name, "api_version": list(ver)}
-        rep.case(("execute_service", t.name, ver), True, sample=None); rep.bump("method:execute_service")
+        replay = {"kind": "impl-case", "method": "execute_service", "type": t.name, "api_version": list(ver), "call_number": n_svc}
+        rep.case(("execute_service", t.name, ver, n_svc), True, sample=None); rep.bump("method:execute_service")
+        if err is not None:
+            rep.violation("C15/execute_service", f"execute_service with an argument of type {t.name} at API {ver} raised {type(err).__name__}: {err} "
+                          "(call %d on this client; the service was declared anew by the device)" % n_svc, replay)
+            continue
         if len(frames) != 1:
             rep.violation("C15/execute_service", f"execute_service wrote {len(frames)} frames", replay)
             continue
@@ -343,7 +375,7 @@ def run(rep, tier, seed):
         want_field = table.get(t) or ("int_" if ver >= (1, 3) else "legacy_int")
         arg = msg.args[0] if msg.args else None
         set_fields = [fd.name for fd, _ in arg.ListFields()] if arg is not None else []
-        if msg.key != 9 or set_fields not in ([want_field], []) or (set_fields == [] and val not in (0, False, "", [], 0.0)):
+        if msg.key not in (9, 31) or set_fields not in ([want_field], []) or (set_fields == [] and val not in (0, False, "", [], 0.0)):
             rep.violation(f"C15/execute_service:{t.name}", f"execute_service argument of type {t.name} at API {ver}: fields set {set_fields}, expected {want_field}", replay)
 
     rep.coverage["disagreements"] = len(disagreements)
